@@ -867,13 +867,15 @@ static void describe_abort(char *buf, size_t n)
     if (starved >= 0) {
         int r = exp_rank_of(starved);
         if (r < 0) r = 0;
-        int nw = war_blocked_writers(r);
+        int nw = 0;     /* over all ranks: the task that retries on rank r may stand for a writer or a flush placed on another rank */
+        for (int q = 0; q < SH.nranks; q++) nw += war_blocked_writers(q);
         char shape[96] = "";
         /* claimed only when the retry is OBSERVED (tasks of this rank that went through prepare_input again and again and
          * never executed) and the plan explains it (writers behind not yet started readers).  waiters >= threads makes
          * the livelock certain, but it also persists with fewer waiters than threads (plan of seed 1000446: 3 waiters,
          * 4 threads, ip: 1 of 6 runs of the REAL runtime did not finish), so the thread count is only printed. */
         int sp = spinning_on_again(r);
+        if (getenv("VERIF_DTD_DEBUG")) for (int q = 0; q < SH.nranks; q++) fprintf(stderr, "[dtd abort] starved task %d rank %d; rank %d: spinning=%d war_blocked_writers=%d\n", starved, r, q, spinning_on_again(q), war_blocked_writers(q));
         if (sp >= 1 && nw >= 1 && !nested_explains) snprintf(shape, sizeof(shape), " [again-livelock-shape spinning=%d waiters=%d threads=%d]", sp, nw, SH.nthreads);
         snprintf(buf, n, "%d of %d tasks done; task %d is data-ready (every earlier conflicting task finished) but never ran: ready-but-starved%s%s", done, total, starved, shape, ntag);
     } else
